@@ -44,7 +44,7 @@ register("C12", ["c12", "sigchain_node", "hazards", "pins"],
          ["ed25519/BLS signature unforgeability and the noise handshake hash binding (snow) hold", "tokio watch runs the guarded closures under its lock"],
          TRUSTED)
 
-register("C04", ["c04", "sigchain", "c07", "hazards", "pins"],
+register("C04", ["c04", "c04x", "sigchain", "c07", "hazards", "pins"],
          "Static conjunctive guard tables on the verification code itself: for CommitQC::verify, TimeoutQC::verify (per loop iteration and after the loop), CommitQC::add / TimeoutQC::add (sibling rule), FinalBlock::verify and View::verify each check is an atom and the accepting site (signature check whose result is returned, union update, bit/signature mutation, Ok) must be reachable only on the all-checks-passed row; operands are compared as terms (weight of the certificate's own signers vs the same schedule's quorum threshold; keys derived from the same signer bitmap); type-directed obligations generated from the ADTs require every nested vote/certificate field to be verified; in the four bft handlers every state change is dominated by both verifications. Decides the soundness direction ('accepted only if ...') structurally; the completeness direction and the cryptography are not claimed.",
          ["BLS aggregate signature verification (blst) is sound", "Signers::weight sums exactly the set bits' weights (checked as C10 guard obligation)"],
          TRUSTED)
